@@ -869,6 +869,9 @@ class Message:
             except struct_error as ex:
                 raise InvalidSyntax(ex)
             critical = bool(critical >> 7)
+            # the length covers the generic payload header, so it cannot be smaller than it
+            if length < 4:
+                raise InvalidSyntax(f'Invalid payload length {length}')
             start = offset + 4
             end = offset + length
             # Parse the payload. If not known and critical, raise exception
